@@ -158,7 +158,8 @@ func (ctx *LeafExecuteContext) sendResponse(resultData [][]byte, err error) {
 		if stream == nil {
 			leafExecuteCtxLogger.Error("unable to get stream for write response, ignore result",
 				logger.String("target", receiver))
-			break
+			// NOTE: other receivers are waiting for the response, cannot stop sending here.
+			continue
 		}
 		var payload []byte
 		if resultData != nil {
